@@ -203,7 +203,14 @@ func c01GenIncludes(r *xrand.Rand, idx int, tier string) *fw.Case {
 			// maybe an include
 			if r.Chance(2, 5) {
 				var target string
-				switch r.Intn(10) {
+				switch r.Intn(13) {
+				case 10:
+					target = names[r.Intn(len(names))] + "/x.jst" // a path through a regular file: Stat fails with ENOTDIR
+				case 11:
+					target = strings.Repeat("n", 300) + ".jst" // Stat fails with ENAMETOOLONG
+				case 12:
+					target = "loop.jst" // a symbolic link to itself: Stat fails with ELOOP
+					files["loop.jst@symlink"] = []byte("loop.jst")
 				case 0:
 					target = name // self
 				case 1:
